@@ -141,7 +141,7 @@ Knot(E) ==
 
 HasSrv(S, n, sid) == \E j \in DOMAIN Nd(S, n).srv : Nd(S, n).srv[j].id = sid
 SrvIdx(S, n, sid) == CHOOSE j \in DOMAIN Nd(S, n).srv : Nd(S, n).srv[j].id = sid
-NoServer(sid) == [id |-> sid, cust |-> 0, busy |-> FALSE, off |-> FALSE, nend |-> INF, start |-> 0, bt |-> 0, send |-> NONE]
+NoServer(sid) == [id |-> sid, cust |-> 0, busy |-> FALSE, off |-> FALSE, nend |-> INF, start |-> 0, bt |-> 0, btw |-> NONE, send |-> NONE]
 Srv(S, n, sid) == IF HasSrv(S, n, sid) THEN Nd(S, n).srv[SrvIdx(S, n, sid)] ELSE NoServer(sid)   \* total, see Cu
 SetSrv(S, n, sid, r) == IF HasSrv(S, n, sid) THEN [S EXCEPT !.nodes[n].srv[SrvIdx(S, n, sid)] = r] ELSE S
 
@@ -189,7 +189,9 @@ KillServer(S, n, sid) ==
 Detach(S, n, sid, i, credit) ==
     LET s == Srv(S, n, sid)
         S1 == DgDetach(Step(S, [St("detach") EXCEPT !.n = n, !.s = sid, !.i = i]), n, sid)
-        S2 == SetSrv(S1, n, sid, [s EXCEPT !.cust = 0, !.busy = FALSE, !.bt = @ + credit])
+        \* undo_wrap_up: the credit of an earlier stop of the simulation is taken back (restored exactly)
+        S2 == SetSrv(S1, n, sid, [s EXCEPT !.cust = 0, !.busy = FALSE,
+                                           !.bt = (IF s.btw # NONE THEN s.btw ELSE s.bt) + credit, !.btw = NONE])
         S3 == SetCu(S2, i, [Cu(S2, i) EXCEPT !.srv = 0])
     IN IF s.off THEN KillServer(S3, n, sid) ELSE S3
 
@@ -840,7 +842,7 @@ ShiftChange(S, n) ==
             LET h == Nd(T, n).hid
                 T1 == Step(T, [St("addsrv") EXCEPT !.n = n, !.x = newc])
                 fresh == Seqify([j \in 1..newc |-> [id |-> h + j, cust |-> 0, busy |-> FALSE, off |-> FALSE, nend |-> INF,
-                                                    start |-> T.now, bt |-> 0, send |-> NONE]])
+                                                    start |-> T.now, bt |-> 0, btw |-> NONE, send |-> NONE]])
             IN [T1 EXCEPT !.nodes[n].srv = @ \o fresh, !.nodes[n].hid = h + newc]
         serve(T) ==
             LET sv == Nd(T, n).srv
@@ -1102,6 +1104,31 @@ ExecEvent(S, a) ==
 Event(S) == UNION {ExecEvent(S, a) : a \in ArgMin(S)}
 
 ----------------------------------------------------------------------------
+(* A stop of the simulation: simulate_until_max_time(T) returns when the next event is not before T.  *)
+(* wrap_up_servers(T) credits the part of every service in progress to its server (remembering the    *)
+(* value before, so that the credit is taken back when the run continues); nothing else changes.      *)
+(* The clock is left at the date of the next event.                                                   *)
+
+RECURSIVE WrapUpServers(_, _, _, _)
+WrapUpServers(S, n, j, T) ==
+    IF j > Len(Nd(S, n).srv) THEN S
+    ELSE LET s == Nd(S, n).srv[j]
+         IN IF ~s.busy \/ ~HasCu(S, s.cust) \/ Cu(S, s.cust).ss = NONE THEN WrapUpServers(S, n, j + 1, T)
+            ELSE LET before == IF s.btw = NONE THEN s.bt ELSE s.btw
+                 IN WrapUpServers([S EXCEPT !.nodes[n].srv[j] = [s EXCEPT !.btw = before, !.bt = before + (T - Cu(S, s.cust).ss)]],
+                                  n, j + 1, T)
+
+RECURSIVE WrapUpNodes(_, _, _)
+WrapUpNodes(S, n, T) ==
+    IF n > NNodes(S) THEN S
+    ELSE WrapUpNodes(IF IsInfC(S, n) THEN S ELSE WrapUpServers(S, n, 1, T), n + 1, T)
+
+PauseStep(S, T) ==
+    LET S1 == WrapUpNodes(S, 1, T)
+    IN [S1 EXCEPT !.now = MinDate(S), !.steps = <<>>, !.recs = <<>>,
+                  !.ev = [kind |-> "pause", node |-> 0, cls |-> 0, date |-> T]]
+
+----------------------------------------------------------------------------
 (* Initial state from a configuration *)
 
 InitNode(cfg, n) ==
@@ -1112,7 +1139,7 @@ InitNode(cfg, n) ==
     IN [c |-> c, cap |-> IF nc.qcap >= INF \/ c0 >= INF THEN INF ELSE nc.qcap + c0,
         q |-> [p \in 1..cfg.P |-> <<>>], count |-> 0, insvc |-> 0,
         srv |-> [j \in 1..nsrv |-> [id |-> j, cust |-> 0, busy |-> FALSE, off |-> FALSE, nend |-> INF,
-                                     start |-> 0, bt |-> 0, send |-> NONE]],
+                                     start |-> 0, bt |-> 0, btw |-> NONE, send |-> NONE]],
         hid |-> c0, bq |-> <<>>, lbq |-> 0, intr |-> <<>>, nintr |-> 0,
         ned |-> IF nc.kind = "sched" THEN nc.sched.off
                 ELSE IF nc.kind = "slot" THEN SlotGen(nc.slot, 1)[1] ELSE INF,
@@ -1139,7 +1166,7 @@ InitStates(cfg, mode, script) ==
                nodes |-> [n \in 1..cfg.N |-> InitNode(cfg, n)],
                cu |-> <<>>, exit |-> <<>>,
                steps |-> <<>>, recs |-> <<>>, ev |-> [kind |-> "init", node |-> 0, cls |-> 0, date |-> 0],
-               unchecked |-> FALSE, trk |-> TrkInit(cfg), gb |-> <<>>, dg |-> {}, dl |-> FALSE,
+               unchecked |-> FALSE, trk |-> TrkInit(cfg), gb |-> <<>>, dg |-> {}, dl |-> FALSE, pz |-> 1,
                trkprev |-> <<TrkInit(cfg).a, TrkInit(cfg).b, TrkInit(cfg).m>>,
                rt |-> [k \in 1..cfg.K |-> [n \in 1..cfg.N |-> 0]],
                cfg |-> cfg, mode |-> mode, script |-> script, err |-> ""]
